@@ -9,18 +9,23 @@
   `v' = v` except where an UNEXPORTED pad slice (nil or zero bytes in every value the library builds) comes back nil;
   then `v'` is `v` with that pad nil — every exported field is the same.  Decoders are the library's dispatchers
   (`MatchPayload.unmarshal` on the receiver `DecodeMatchField` allocates, `MatchField.unmarshal` which calls
-  `DecodeMatchField`, `DecodeAction`, `DecodeInstr`, `parse`).
+  `DecodeMatchField`, `DecodeAction`, `DecodeInstr`, `parse`).  Messages whose encoder stores the size in Header.Length
+  (FlowMod, SwitchConfig, Hello) are stated as: any stored Length `ln0` ↦ (bytes, value with the computed Length), Parse of
+  the bytes ↦ that value — whose encoding is the same bytes again (instance `ln0` = computed Length).
+  The proofs are in OFV/Lemmas/RT*.lean (well-formedness predicates `PayloadWF`, `RecvOK`, `MatchFieldWF`, `MatchWF`,
+  `ActionRT/ActionsRT`, `InstrRT/InstrsRT` are defined there); this file states the property theorems.
 
   What is proved (all for arbitrary field values inside the stated ranges):
     §1 Header                                   header_roundtrip
     §2 the 30 match payload kinds, uniformly     payload_roundtrip (+ payload_dispatch: the dispatcher runs the kind's decoder)
-    §3 MatchField (value, optional mask)         matchField_roundtrip_partial     — classes OPENFLOW_BASIC and NXM_1
+    §3 MatchField (value, optional mask)         matchField_roundtrip_partial     — classes OPENFLOW_BASIC and NXM_1;
+                                                 matchField_registry_covered: instances exist for all 36 + 55 decodable fields
        Match (field list + padding)              match_roundtrip                  — every field decoded from inside the list
     §4 actions through DecodeAction              actionOutput/Group/Setqueue/Push/PopVlan/PopMpls/DecNwTtl/Header/SetField,
                                                  Nicira: nxConjunction / nxResubmitTable (2 subtypes) / nxDecTTL
        instructions through DecodeInstr          instrGotoTable / instrWriteMetadata / instrActions (any list of actions)
     §5 messages through Parse                    parse_header_only (6 header-only types); switchConfig_roundtrip (2 types);
-                                                 flowMod_roundtrip (Match + instructions + actions nested);
+                                                 flowMod_roundtrip (Match + instructions + actions nested); flowRemoved_roundtrip;
                                                  hello_one_element_roundtrip_partial, hello_default_roundtrip
 
   Where the round trip is FALSE in the model (= the Go code violates C05), the concrete counterexample is proved:
@@ -50,6 +55,8 @@ import OFV.Lemmas.RTFlowMod
 import OFV.Lemmas.RTNx
 import OFV.Lemmas.RTSwitchConfig
 import OFV.Lemmas.RTHello
+import OFV.Lemmas.RTRegistry
+import OFV.Lemmas.RTFlowRemoved
 namespace OFV.Props.C05
 open OFV OFV.Go OFV.Model OFV.RT
 
@@ -170,6 +177,18 @@ theorem matchField_roundtrip_partial (v : V) (hwf : MatchFieldWF v) :
       MatchField.lenM v = .ok (UInt16.ofNat bs.length, v) ∧ 4 ≤ bs.length ∧ bs.length ≤ 514 := by
   obtain ⟨bs, h1, h2, h3, h4, h5⟩ := matchField_roundtrip v hwf
   exact ⟨bs, ⟨h1, h1, h5⟩, h2, h3, h4⟩
+
+/-- the theorem is not vacuous anywhere in the registry: for EVERY (class, field) for which `DecodeMatchField` allocates a
+    receiver in classes OPENFLOW_BASIC / NXM_1 (whatever Length byte and mask flag), a well-formed value of the receiver's
+    kind exists, i.e. `MatchFieldWF` has instances for that field -/
+theorem matchField_registry_covered (c f ln : Nat) (hm : Bool) (r : V) (h : fieldRecv c f ln hm = some r) :
+    ∃ val, PayloadWF val ∧ RecvOK val r :=
+  fieldRecv_supported c f ln hm r h
+
+/-- the fields concerned: 36 of the 42 OPENFLOW_BASIC entries and 55 of the 67 NXM_1 entries have a decoder
+    (the others are `case` labels without a body: DecodeMatchField returns an error, resp. panics, for them) -/
+example : (basicFieldTable.filter (fun x => x.2.isSome)).length = 36 ∧
+    ((nxm1FieldTable 0 false).filter (fun x => x.2.isSome)).length = 55 := ⟨rfl, rfl⟩
 
 /-- satisfiable: NewInPortField(7) -/
 example : MatchFieldWF (.obj "MatchField" [.num 32768, .num 0, .num 0, .num 4, .num 0, .obj "InPortField" [.num 7], .nil]) :=
@@ -488,6 +507,21 @@ example : ∃ is encs, InstrsRT is encs ∧ is.length = 3 :=
       (.cons (instrRT_actions Gen.openflow13.InstrType_APPLY_ACTIONS 32 _ _ (Or.inr (Or.inl rfl))
         (.cons (actionRT_setqueue 8 5 (by decide) (by decide))
           (.cons (actionRT_output 16 2 65535 (by decide) (by decide) (by decide)) .nil)) rfl (by decide)) .nil)), rfl⟩
+
+/-- FlowRemoved through Parse: header (its Length is NOT recomputed by this encoder: written and read back as it is),
+    40 fixed bytes, the Match.  All scalars inside their widths, `MatchWF m`, total size below 2^16. -/
+theorem flowRemoved_roundtrip (ver ln xid ck pr rs tid ds dn it ht pc bc : Nat) (m : V)
+    (hver : ver < 256) (hln : ln < 65536) (hxid : xid < 4294967296) (hck : ck < 18446744073709551616) (hpr : pr < 65536)
+    (hrs : rs < 256) (htid : tid < 256) (hds : ds < 4294967296) (hdn : dn < 4294967296) (hit : it < 65536)
+    (hht : ht < 65536) (hpc : pc < 18446744073709551616) (hbc : bc < 18446744073709551616) (hm : MatchWF m) :
+    ∃ mbs, Match.marshalM m = .ok (mbs, m) ∧ (48 + mbs.length < 65536 →
+      let v := flowRemovedV ver ln xid ck pr rs tid ds dn it ht pc bc m
+      ∃ bs, ∀ depth, RoundTrip FlowRemoved.marshalM (parse depth) v v bs) := by
+  obtain ⟨mbs, h1, h2⟩ := flowRemoved_rt ver ln xid ck pr rs tid ds dn it ht pc bc m hver hln hxid hck hpr hrs htid hds hdn
+    hit hht hpc hbc hm
+  refine ⟨mbs, h1, fun hL => ?_⟩
+  obtain ⟨h3, h4⟩ := h2 hL
+  exact ⟨_, fun depth => ⟨h3, h3, fun data tail hd hb => h4 depth data tail hd hb⟩⟩
 
 /-- SwitchConfig (get-config reply, type 8, and set-config, type 9) through Parse.  `MarshalBinary` stores 12 in
     Header.Length; Parse of the 12 bytes followed by anything returns the value with that Length, which encodes to the
